@@ -274,7 +274,7 @@ def coq_codes(name, imports, exprs, defs='', shard=None, timeout=900):
         m = re.search(r'=\s*\[(.*?)\]\s*:\s*list \(nat \* N\)', out, re.S)
         if not m:
             raise HarnessError('cannot parse coqc output for %s:\n%s' % (fn, out[-2000:]))
-        return [(lo + int(a), int(b)) for a, b in re.findall(r'\((\d+)(?:%nat)?\s*,\s*(\d+)(?:%N)?\)', m.group(1))]
+        return [(lo + int(a), int(b)) for a, b in re.findall(r'\(\s*(\d+)\s*(?:%nat)?\s*,\s*(\d+)\s*(?:%N)?\s*\)', m.group(1))]
 
     with ThreadPoolExecutor(max_workers=NPROC) as ex:
         results = list(ex.map(lambda r: _eval_range(write_file, parse, r[0], r[1], timeout), _shards(exprs, shard)))
